@@ -7,6 +7,7 @@ package device
 //vc:func ApproveOrCompare
 //vc:  requires[C12] @deviceOnlyUnderLock lockHeld
 //vc:  init isCompareRun = isCompare
+//vc:  init confMode = false
 //vc:  init nameChecked = false
 //vc:  init markerMissing = false
 //vc:  init haActive = false
@@ -21,6 +22,7 @@ package device
 // RealDevice is bound to each implementation in turn).
 //vc:func (*state).approve
 //vc:  specialize RealDevice
+//vc:  requires[C11] @notInConfMode !confMode
 //vc:  requires[C11] !isCompareRun
 //vc:  requires[C06] !nameChecked && !markerMissing && !haActive
 //vc:  requires[C09] !changesConfirmed
@@ -31,6 +33,7 @@ package device
 
 //vc:func (*state).compare
 //vc:  specialize RealDevice
+//vc:  requires[C11] @notInConfMode !confMode
 //vc:  requires[C11] true
 //vc:  requires[C06] !nameChecked && !markerMissing && !haActive
 
